@@ -62,6 +62,8 @@ Fixpoint expr_eqb (a b : expr) : bool :=
   | EDot t1 s1, EDot t2 s2 => expr_eqb t1 t2 && zlist_eqb s1 s2
   | EUn o1 v1, EUn o2 v2 => op_eqb o1 o2 && expr_eqb v1 v2
   | EBin o1 l1 r1, EBin o2 l2 r2 => op_eqb o1 o2 && expr_eqb l1 l2 && expr_eqb r1 r2
+  | ECond c1 y1 n1, ECond c2 y2 n2 => expr_eqb c1 c2 && expr_eqb y1 y2 && expr_eqb n1 n2
+  | EIndex t1 i1, EIndex t2 i2 => expr_eqb t1 t2 && expr_eqb i1 i2
   | _, _ => false
   end.
 Definition reparse_ok (c : bool * expr * bytes) : bool :=
